@@ -1169,7 +1169,10 @@ def run(ctx):
 # bus passes and timers, losses, wrong working counters, the moment run() is
 # cancelled or told to stop, and the random group numbers.
 LIFE_ETHERTYPES = (ETHERTYPE, 0x3412, 0x4321)
-LIFE_TAIL = 14          # default steps after the last possible deviation
+LIFE_TAIL = 8           # at least that many default steps after the horizon
+LIFE_TAIL_TIME = 0.06   # ... and at most that much virtual time (three
+#                         response time-outs) for every live group to run
+LIFE_TAIL_MAX = 240     # guard: steps
 LIFE_ROUNDS = 2         # default schedule: bus rounds per timer tick
 AL_TICK = 0.001
 AL_TICKS = {"OPERATIONAL": 1, "SAFE_OPERATIONAL": 2}
@@ -1710,8 +1713,10 @@ class Life:
 
     def _drive(self):
         cfg = self.cfg
-        end = cfg["horizon"] + LIFE_TAIL
-        while self.stepno < end:
+        horizon = cfg["horizon"]
+        t_h = None
+        overdue = False
+        while True:
             self._script()
             self.loop.run_until_idle()
             if self.pending_round:
@@ -1727,6 +1732,18 @@ class Life:
                         "the group keeps running until it is stopped",
                         dict(group=g.name, error=repr(e)[:200]))
                     g.stopped = "died"
+            if self.stepno >= horizon:
+                # the fault-free continuation: until every live group has
+                # run again (at least LIFE_TAIL steps)
+                if t_h is None:
+                    t_h = self.loop.time()
+                waiting = [g for g in self._live() if g.last_ran < horizon]
+                if self.stepno >= horizon + LIFE_TAIL and not waiting:
+                    break
+                if self.loop.time() - t_h > LIFE_TAIL_TIME or \
+                        self.stepno >= horizon + LIFE_TAIL_MAX:
+                    overdue = True
+                    break
             opts = self._options()
             if not opts:
                 break
@@ -1736,17 +1753,21 @@ class Life:
         self.loop.run_until_idle()
         self.check_table()
         # C22, liveness part: after the last fault the group runs again
-        for g in self.groups:
-            if g.registered and g.stopped is None and g.task is not None \
-                    and not g.task.done() and self.stepno >= end \
-                    and g.last_ran < cfg["horizon"]:
+        for g in self._live():
+            if overdue and g.last_ran < horizon:
                 self.violation(
                     "C22", "life cycle: a registered group is not run again",
-                    f"the group's program runs within the last {LIFE_TAIL} "
-                    "steps of the fault-free continuation",
+                    "the group's program runs again within "
+                    f"{LIFE_TAIL_TIME * 1000:.0f} ms of the fault-free "
+                    "continuation",
                     dict(group=g.name, index=g.index, last_ran=g.last_ran,
                          steps=self.stepno, in_flight=len(self.wire),
                          runs=g.runs_total))
+
+    def _live(self):
+        return [g for g in self.groups
+                if g.registered and g.stopped is None and g.task is not None
+                and not g.task.done()]
 
     def observation(self):
         return dict(viol=list(self.viol), stats=dict(self.stats),
@@ -1783,16 +1804,20 @@ def life_configs(ctx):
         layouts.append(extra[ctx.seed % len(extra)])
     out = []
     # (b) one group: start, run, faults, stop
-    counters = [0, 1] if quick else [0, 1, 255]
+    counters = [0, 1]
     if ctx.seed:
         counters.append(2 + (ctx.seed * 37) % 250)
     for n, layout in enumerate(layouts):
-        for c0 in counters:
-            # quick: the full pair alphabet for the first two layouts, the
-            # others get single deviations
-            bound = 2 if (not quick or n < 2) else 1
+        # thorough: the wrap-around of the loop counter during start-up
+        # for the first two layouts
+        for c0 in counters + ([255] if not quick and n < 2 else []):
+            # pairs of deviations for the first two layouts (thorough: and
+            # for one more of each writer count), single ones for the rest
+            pairs = n < 2 or (not quick and layout in (
+                "w0r1-fmmu", "w1r0-direct", "w2r2-mixed"))
+            bound = 2 if pairs else 1
             out.append((dict(kind="one-group", masters=[[layout]],
-                             counter0=c0, horizon=24 if quick else 34,
+                             counter0=c0, horizon=24 if quick else 30,
                              script=[[0, "start", 0, 0]],
                              alphabet="TDLWCR",
                              # quick: a wrong counter and running=False
@@ -1836,6 +1861,8 @@ def life_on_exec(prop, cfg, res):
         st = obs["stats"]
         res.count("evaluations")
         res.count("lifecycle_executions")
+        res.count("lifecycle_executions_" + cfg["kind"].split(":")[0]
+                  .replace("-", "_"))
         res.count("traces_validated_against_impl")
         res.count("transitions", obs["steps"])
         res.count("states")          # one distinct execution
@@ -1902,13 +1929,59 @@ def life_items(ctx, prop, res):
             a = life_execute(explore.Chooser(()), cfg)
             b = life_execute(explore.Chooser(()), cfg)
             if (a["log"], a["viol"]) != (b["log"], b["viol"]):
-                raise Internal("life cycle: non-deterministic execution")
+                # the same execution twice in this process differs.  From
+                # equal process states (two forked children) it must not:
+                # that would be the harness.  Otherwise something in the
+                # library survives from one sync group to the next (the
+                # dispatcher search reports that for C21 by building every
+                # group after a decoy); executions are then not independent
+                # and this exploration is not run.
+                if _forked_digest(cfg) != _forked_digest(cfg):
+                    raise Internal("life cycle: non-deterministic execution")
+                res.caps_hit.append(
+                    "life cycle not explored: library state survives from "
+                    "one sync group to the next in one process")
+                res.exhaustive = False
+                res.cov["lifecycle_skipped"] = 1
+                return []
     finally:
         logging.disable(logging.NOTSET)
     return items
 
 
+def _forked_digest(cfg):
+    """digest of the default execution, run in a forked child"""
+    import os
+    import sys
+    sys.stdout.flush()
+    r, w = os.pipe()
+    pid = os.fork()
+    if pid == 0:
+        out = b"failed"
+        try:
+            os.close(r)
+            o = life_execute(explore.Chooser(()), cfg)
+            out = core.digest([o["log"], core.jsonable(o["viol"])]).encode()
+        except BaseException as e:
+            out = ("failed " + repr(e)[:100]).encode()
+        finally:
+            os.write(w, out)
+            os._exit(0)
+    os.close(w)
+    data = b""
+    while True:
+        chunk = os.read(r, 4096)
+        if not chunk:
+            break
+        data += chunk
+    os.close(r)
+    os.waitpid(pid, 0)
+    return data
+
+
 def life_finish(ctx, res):
+    if res.cov.get("lifecycle_skipped"):
+        return
     if not res.cov.get("lifecycle_teardown_passes"):
         raise Internal("life cycle: no bus pass between a stop request and "
                        "the unregistration was explored")
@@ -1930,9 +2003,12 @@ def life_finish(ctx, res):
         "refers to the group's own variables map; the starvation bound is "
         "judged only while the history never had more than three frames of "
         "the group in flight (the statement's precondition)",
-        f"life cycle: 'restart after loss' = the program of a group that "
-        f"is registered and whose run() is alive ran at least once in the "
-        f"last {LIFE_TAIL} steps, in which no deviation is injected",
+        "life cycle: 'restart after loss' = after the horizon no deviation "
+        "is injected and the default schedule continues until every group "
+        "that is registered and whose run() is alive has had its program "
+        f"run again; a violation if that takes more than "
+        f"{LIFE_TAIL_TIME * 1000:.0f} ms of virtual time (three response "
+        "time-outs)",
     ]
 
 
